@@ -42,6 +42,19 @@ theorem ring_disjoint_nil (box : Bound α) (inp : List (Pt α))
     (h : (∀ v ∈ inp, v.x < box.lo.x) ∨ (∀ v ∈ inp, v.x > box.hi.x) ∨ (∀ v ∈ inp, v.y < box.lo.y) ∨ (∀ v ∈ inp, v.y > box.hi.y)) :
     ring box inp = some [] := ring_disjoint_nil' box inp h
 
+/-- "A ring disjoint from the box yields nothing", in the strongest form that is TRUE of the code: a ring
+    whose CONVEX HULL misses the box (any convex set `C` containing every vertex and no point of the box —
+    a separating line of any direction, not only an edge line of the box) clips to nil.
+    The unrestricted clause — "no point of the ring's region or boundary in the closed box ⇒ nil" — is
+    FALSE of the code: `C08N.ring_disjoint_full_false` in OrbProofs/C08Nil.lean (a frame with a slit around
+    the box; Sutherland–Hodgman leaves a zero-area ring along the box boundary; finding
+    C08-sh-boundary-sliver).  The converse direction IS proved there: `C08N.ring_nil_nothing_remains`
+    (nil ⇒ no point of the closed region in the open box), also through the bound pre-test of
+    `clip.Geometry` (`C08N.geometry_ring_nil_nothing_remains`, `C08N.geometry_polygon_nil_nothing_remains`). -/
+theorem ring_hull_disjoint_nil (box : Bound α) (inp : List (Pt α)) (C : Pt α → Prop) (hC : C08.Conv C)
+    (hin : ∀ v ∈ inp, C v) (hno : ∀ v, InBox box v → ¬ C v) : ring box inp = some [] :=
+  ring_hull_disjoint_nil' box inp C hC hin hno
+
 /-- A closed ring stays closed. -/
 theorem ring_closed (box : Bound α) (inp out : List (Pt α)) (hc : ClosedRing inp) (h : ring box inp = some out)
     (hne : out ≠ []) : ClosedRing out := ring_closed' box inp out hc h hne
@@ -52,7 +65,12 @@ theorem polygon_spec (box : Bound α) (outer : List (Pt α)) (holes : List (List
       polygon box (outer :: holes) = some (if o = [] then [] else o :: hs.filter (· ≠ [])) :=
   polygon_spec' box outer holes
 
-/-- `clip.Bound` of two non-empty boxes is their intersection. -/
+/-- `clip.Bound` of two non-empty boxes is their intersection.  The non-emptiness hypotheses cannot be
+    dropped: with an EMPTY argument `clip.Bound` returns the other box (`C08N.clipBound_empty_arg`), the
+    unrestricted statement is refuted (`C08N.clipBound_is_intersection_full_false`) and `clip.Geometry` of an
+    empty Bound that passes the pre-test is the whole clip box instead of nil
+    (`C08N.geometry_bound_empty_returns_box`; finding C08-empty-bound-returns-box).  For a non-empty
+    argument "nil ⇔ no common point" is `C08N.geometry_bound_nil_iff`. -/
 theorem clipBound_is_intersection (b c : Bound α) (hb : b.isEmpty = false) (hc : c.isEmpty = false) (p : Pt α) :
     InBox (clipBound b c) p ↔ (InBox b p ∧ InBox c p) := clipBound_is_intersection' b c hb hc p
 
@@ -64,9 +82,12 @@ theorem geometry_total (eb box : Bound α) (hb : BoxOK box) (g : Geom α) : ∃ 
 theorem geometry_vertices_in_box (eb box : Bound α) (hb : BoxOK box) (g r : Geom α)
     (h : geometry eb box g = some (some r)) : ∀ v ∈ gverts r, InBox box v := geometry_vertices_in_box' eb box hb g r h
 
-/-- REGION EQUALITY (the headline clause), stated in full; NOT yet proved — carried by the executable
-    property on the implementation's outputs (exact even-odd membership of sample points).
-    `inside r q` is the even-odd rule for a closed chain. -/
+/-- REGION EQUALITY (the headline clause), stated in full.  PROVED in OrbProofs/C08Region.lean, which
+    imports this file: `C08R.sh_region` (this statement for the closed even-odd region of `Orb.EvenOdd`),
+    `C08R.sh_region_crossings` (for the pure crossing parity) and the stronger `C08R.sh_region_strong`
+    (crossing parity, boundary flag and `inside` agree at EVERY point of the open box, no hypothesis on
+    `q` relative to the ring).  The definition stays here because C08Region refers to it.
+    `inside r q` is the region predicate for a closed chain. -/
 def sh_region_full (inside : List (Pt α) → Pt α → Prop) : Prop :=
   ∀ (box : Bound α) (inp out : List (Pt α)) (q : Pt α), BoxOK box → ClosedRing inp → ring box inp = some out →
     InOpenBox box q → (∀ a b, (a, b) ∈ segsOf inp → ¬ OnSeg a b q) → (inside out q ↔ inside inp q)
